@@ -14,6 +14,7 @@ import (
 	"net"
 	"net/http"
 	"strconv"
+	"strings"
 	"time"
 
 	req "github.com/imroc/req/v3"
@@ -161,11 +162,21 @@ func runReExec(r *hk.Run, e *env, rng *hk.Rand, n int) {
 			rc.apply(s)
 			prog = append(prog, "c: "+s.coq())
 		}
-		for j, m := 0, rng.Range(0, 3); j < m; j++ {
-			applyC(clientSetter())
+		// half of the programs start on a client without any common header / cookie / form data
+		if rng.Chance(50) {
+			for j, m := 0, rng.Range(1, 3); j < m; j++ {
+				applyC(clientSetter())
+			}
 		}
+		// retry budget of the request (copied from the client at R()): retry on 503, up to `budget` times
+		budget := rng.Range(0, 2)
+		const cond503 = 7
+		c.SetCommonRetryCount(budget).SetCommonRetryFixedInterval(time.Millisecond).SetCommonRetryCondition(e.cond503(cond503))
+		rc.rt = refRetry{max: budget, interval: 0, conds: []int{cond503}}
+		prog = append(prog, fmt.Sprintf("c.SetCommonRetryCount(%d) + retry on 503", budget))
 		q := c.R()
 		rq := newRefObj()
+		rq.rt = refRetry{max: budget, interval: 0, conds: []int{cond503}}
 		applyQ := func(s setter) {
 			e.reqSet(q, s, 0)
 			rq.apply(s)
@@ -176,10 +187,48 @@ func runReExec(r *hk.Run, e *env, rng *hk.Rand, n int) {
 		}
 		execs := rng.Range(2, 3)
 		for x := 1; x <= execs; x++ {
+			// the origin answers 503 to the first `fails` attempts of this execution (within the budget)
+			fails := rng.Range(0, budget)
+			e.script = nil
+			for j := 0; j < fails; j++ {
+				e.script = append(e.script, 503)
+			}
+			e.seen = nil
 			d, err := e.emit(c, q)
-			prog = append(prog, fmt.Sprintf("q.Post() #%d", x))
+			attempts := e.seen
+			e.seen, e.script = nil, nil
+			prog = append(prog, fmt.Sprintf("q.Post() #%d [origin: %d x 503, then 200]", x, fails))
+			r.Count(fmt.Sprintf("reexec.fails=%d", fails))
 			if err != nil {
-				r.Fail(hk.Failure{Sig: "error:re-exec", What: "request execution failed: " + err.Error(), Input: map[string]interface{}{"program": prog}})
+				r.Fail(hk.Failure{Sig: "re-exec:retry:execution-failed", What: "execution of a Request whose retry budget covers the scripted 503s did not end in 200: " + err.Error(),
+					Input: map[string]interface{}{"program": append([]string(nil), prog...), "attempts": len(attempts), "budget": budget, "fails": fails}})
+				break
+			}
+			if len(attempts) != fails+1 {
+				r.Fail(hk.Failure{Sig: "re-exec:retry:attempts", What: "number of attempts of this execution differs from scripted failures + 1",
+					Input: map[string]interface{}{"program": append([]string(nil), prog...)}, Got: len(attempts), Want: fails + 1})
+				break
+			}
+			// every attempt carries the cookies exactly once: the request's, then the client's
+			wantCk := append(cpInts(rq.sl[0]), rc.sl[0]...)
+			badAttempt := -1
+			for ai, at := range attempts {
+				var ck []int
+				for _, line := range at.header.Values("Cookie") {
+					for _, part := range strings.Split(line, "; ") {
+						if name := strings.SplitN(part, "=", 2)[0]; strings.HasPrefix(name, "c") {
+							n, _ := strconv.Atoi(name[1:])
+							ck = append(ck, n)
+						}
+					}
+				}
+				if !eqInts(ck, wantCk) && badAttempt < 0 {
+					badAttempt = ai
+					r.Fail(hk.Failure{Sig: "re-exec:retry:cookies-of-attempt", What: fmt.Sprintf("attempt %d of execution #%d carries other cookies than request-level + current client-level", ai+1, x),
+						Input: map[string]interface{}{"program": append([]string(nil), prog...)}, Got: ck, Want: wantCk})
+				}
+			}
+			if badAttempt >= 0 {
 				break
 			}
 			want := refDescribe(rc, rq)
